@@ -11,7 +11,18 @@ Definition secret_hash {H : Type} (h : bytes -> H) (a : bytes) : H := h (sha256 
 Inductive secret_ty :=
 | TClientSecret | TAuthorizationCode | TAccessToken | TRefreshToken | TPkceCodeVerifier
 | TCsrfToken | TResourceOwnerPassword | TDeviceCode | TUserCode | TVerificationUriComplete.
-Inductive trait_name := TrDisplay | TrDeref | TrIntoString | TrPartialEq | TrEq | TrHash | TrClone | TrDebug.
+Inductive trait_name :=
+| TrDisplay | TrDeref | TrIntoString | TrPartialEq | TrEq | TrHash | TrClone | TrDebug
+(* further ways of reading or comparing the contents without the named accessor *)
+| TrBorrowStr | TrBorrowString | TrAsRefStr | TrAsRefString | TrAsRefBytes | TrToString
+| TrIntoBytes | TrIntoBoxStr | TrPartialEqStr | TrPartialEqString | TrStrPartialEq
+| TrPartialOrd | TrOrd | TrCopy | TrDefault | TrIntoIterator.
+
+(* traits through which generic code could read, order or conjure the contents *)
+Definition revealing_traits : list trait_name :=
+  [TrDisplay; TrDeref; TrIntoString; TrBorrowStr; TrBorrowString; TrAsRefStr; TrAsRefString;
+   TrAsRefBytes; TrToString; TrIntoBytes; TrIntoBoxStr; TrPartialEqStr; TrPartialEqString;
+   TrStrPartialEq; TrPartialOrd; TrOrd; TrCopy; TrDefault; TrIntoIterator].
 
 Definition all_secret_tys : list secret_ty :=
   [TClientSecret; TAuthorizationCode; TAccessToken; TRefreshToken; TPkceCodeVerifier;
@@ -20,7 +31,10 @@ Definition all_secret_tys : list secret_ty :=
 (* [timing] = feature timing-resistant-secret-traits *)
 Definition impls (t : secret_ty) (tr : trait_name) (timing : bool) : bool :=
   match tr with
-  | TrDisplay | TrDeref | TrIntoString => false
+  | TrDisplay | TrDeref | TrIntoString
+  | TrBorrowStr | TrBorrowString | TrAsRefStr | TrAsRefString | TrAsRefBytes | TrToString
+  | TrIntoBytes | TrIntoBoxStr | TrPartialEqStr | TrPartialEqString | TrStrPartialEq
+  | TrPartialOrd | TrOrd | TrCopy | TrDefault | TrIntoIterator => false
   | TrPartialEq | TrEq | TrHash => timing
   | TrClone => match t with TPkceCodeVerifier => false | _ => true end
   | TrDebug => true
